@@ -48,7 +48,7 @@ def toList : Tree α → List α
 /-- height in NODES (0 for nil); the depth in edges of the deepest key is `height - 1` -/
 def height : Tree α → Nat
   | nil => 0
-  | node l _ r => 1 + Nat.max l.height r.height
+  | node l _ r => 1 + max l.height r.height
 
 /-- `node.clone` (a value copy: the identity on an immutable tree) -/
 def clone : Tree α → Tree α
